@@ -882,6 +882,17 @@ class Cap(object):
                 return self.branch(n["ch"][0], st)
         ts, fs = [], []
         vals = [(st, pre)] if pre is not None else self.ev(n, st)
+        if pre is None and k == "ref" and n.get("flagdef") is not None:
+            # a flag local that stands for a condition (facts.Function._find_flagdefs): where its value was blurred by a merge of
+            # states, test the condition it stands for instead
+            for s, v in vals:
+                if v[0] == "i" and v[1].is_const():
+                    (ts if v[1].c else fs).append(s)
+                else:
+                    t_, f_ = self.branch(n["flagdef"], s)
+                    ts.extend(t_)
+                    fs.extend(f_)
+            return ts, fs
         for s, v in vals:
             if v[0] == "n":
                 fs.append(s)
